@@ -204,6 +204,8 @@ def main():
         'u32x3': (('a', 'u32'), ('b', 'u32'), ('c', 'u32')), 'strx3': (('a', 'String'), ('b', 'String'), ('c', 'String')),
         'f64f64': (('a', 'f64'), ('b', 'f64')), 'pt': (('p', 'Pt'), ('b', 'u32')), 'one_str': (('a', 'String'),), 'one_u32': (('a', 'u32'),),
         'slice': (('a', "&'static [u32]"), ('b', 'u32')),
+        # Option nesting, and an Option around a user enum that has a variant called `None`
+        'optopt': (('a', 'Option<Option<u32>>'), ('b', 'u32')), 'optmaybe': (('a', 'Option<Maybe>'), ('b', 'u32')), 'opttup': (('a', 'Option<(u32, u32)>'),),
         'u32x5': (('a', 'u32'), ('b', 'u32'), ('c', 'u32'), ('d', 'u32'), ('e', 'u32')),
         'tup1': (('a', '(u32,)'), ('b', 'u32')), 'tup3': (('a', '(u32, u32, u32)'),), 'tup4': (('a', '(i32, i32, i32, i32)'), ('b', 'u32')),
         'tup5': (('a', '(u32, u32, u32, u32, u32)'),), 'tup5b': (('a', 'u32'), ('t', '(u32, u32, u32, u32, u32)')),
@@ -291,6 +293,7 @@ def main():
             lines_ = render(r)
             extm += ['    ' + l.replace('pub fn', 'fn').replace('pub async fn', 'async fn') for l in lines_]
             ext_sigs.append('    fn %s(&self, %s) -> %s;' % (nm, ', '.join(f'{a}: {t}' for a, t in args), r['ret']))
+    lines += ['#[derive(Debug, Clone, Copy, PartialEq)]', 'pub enum Maybe { None, Just }', 'impl cachelito_core::DefaultCacheableKey for Maybe {}', '']
     lines += ['#[derive(Debug, Clone, Copy, PartialEq)]', 'pub enum Node { Node1, Node11, Node110 }', 'impl cachelito_core::DefaultCacheableKey for Node {}',
               'impl Node { pub fn parse(s: &str) -> Option<Node> { match s { "Node1" => Some(Node::Node1), "Node11" => Some(Node::Node11), "Node110" => Some(Node::Node110), _ => None } } }',
               'impl Node {'] + nodem + ['}', '']
@@ -306,16 +309,31 @@ def main():
     lines += ['pub async fn call_async(name: &str, recv: u64, a: Vec<u64>) -> Option<String> {', '    match name {'] + asy + ['        _ => None,', '    }', '}', '']
     # ---- typed dispatch for the key-shape subjects (arguments given as text tokens)
     def conv(t, i):
+        return conve(t, f'a[{i}]')
+    def conve(t, e):
+        """Rust expression of type `t` parsed from the text token `e` (a String / &str expression); None if the type has no native encoding"""
         t = t.strip()
-        if t in ('u8', 'u16', 'u32', 'u64', 'usize', 'i8', 'i16', 'i32', 'i64', 'isize', 'bool'): return f'a[{i}].parse::<{t}>().ok()?'
-        if t == 'String': return f'dec(&a[{i}])?'
-        if t == '&str': return f'&*Box::leak(dec(&a[{i}])?.into_boxed_str())'
-        if t == 'char': return f'dec(&a[{i}])?.chars().next()?'
+        if t in ('u8', 'u16', 'u32', 'u64', 'usize', 'i8', 'i16', 'i32', 'i64', 'isize', 'bool'): return f'{e}.parse::<{t}>().ok()?'
+        if t == 'String': return f'dec(&{e})?'
+        if t == '&str': return f'&*Box::leak(dec(&{e})?.into_boxed_str())'
+        if t == 'char': return f'dec(&{e})?.chars().next()?'
+        if t == 'Maybe': return f'(match &{e}[..] {{ "None" => Maybe::None, "Just" => Maybe::Just, _ => return None }})'
+        mv = re.match(r"^(?:Vec<|&'static \[)(u8|u16|u32|u64|usize|i8|i16|i32|i64|isize)[>\]]$", t)
+        if mv:
+            # v:<e0>,<e1>,... (v: alone = empty)
+            body = f'{{ let b_ = {e}.strip_prefix("v:")?.to_string(); if b_.is_empty() {{ Vec::<{mv.group(1)}>::new() }} else {{ b_.split(\',\').map(|x| x.parse::<{mv.group(1)}>().ok()).collect::<Option<Vec<_>>>()? }} }}'
+            return body if t.startswith('Vec') else f'&*Box::leak({body}.into_boxed_slice())'
+        mo = re.match(r'^Option<(.*)>$', t)
+        if mo:
+            inner = conve(mo.group(1), 'r_')
+            if inner is None: return None
+            # o:N = None, o:S:<token of the payload> = Some(payload)
+            return f'{{ let s_: String = {e}.to_string(); if s_ == "o:N" {{ None }} else {{ let r_: String = s_.strip_prefix("o:S:")?.to_string(); Some({inner}) }} }}'
         mt = re.match(r'^\(((?:u8|u16|u32|u64|usize|i8|i16|i32|i64|isize)), *((?:\1(?:, *)?)*)\)$', t)
         if mt:
             n_ = t.count(',') + (0 if t.rstrip(')').rstrip().endswith(',') else 1)
             comps = ', '.join(f'p[{j}]' for j in range(n_)) + (',' if n_ == 1 else '')
-            return f'{{ let p: Vec<{mt.group(1)}> = a[{i}].strip_prefix("t:")?.split(\',\').map(|x| x.parse::<{mt.group(1)}>().ok()).collect::<Option<Vec<_>>>()?; if p.len() != {n_} {{ return None; }} ({comps}) }}'
+            return f'{{ let p: Vec<{mt.group(1)}> = {e}.strip_prefix("t:")?.split(\',\').map(|x| x.parse::<{mt.group(1)}>().ok()).collect::<Option<Vec<_>>>()?; if p.len() != {n_} {{ return None; }} ({comps}) }}'
         return None
     ksyn = []; kasy = []
     for r in S:
